@@ -628,6 +628,33 @@ theorem Rnd_unique (v : ℚ) (b b' : Nat) (hv : v ≠ 0) (h : Rnd v b) (h' : Rnd
     rw [← e1, ← e2, this]
   · exact FloatSqrt.Rnd_pos_unique v b b' hpos h h'
 
+/-! ## the square root is nearest -/
+
+/-- every rational between two rationals with the same rounding has that rounding -/
+theorem Rnd_between (q1 q2 x : ℚ) (b : Nat) (h0 : 0 < q1) (h1 : Rnd q1 b) (h2 : Rnd q2 b) (hx1 : q1 ≤ x) (hx2 : x ≤ q2) :
+    Rnd x b := by
+  obtain ⟨b', hb'⟩ := Rnd_total x
+  have k1 := Rnd_mono _ _ _ _ h1 hb' hx1
+  have k2 := Rnd_mono _ _ _ _ hb' h2 hx2
+  have p1 := FloatSqrt.Rnd_pos_bits q1 b h0 h1
+  have p2 := FloatSqrt.Rnd_pos_bits x b' (by linarith) hb'
+  rw [key_small b (by omega), key_small b' (by omega)] at k1 k2
+  have : b' = b := by omega
+  rw [← this]; exact hb'
+
+/-- **`√a` is the nearest number to the real root**: the result is finite and, for an enclosure `q1 ≤ √(val a) ≤ q2`,
+    at least as close to EVERY rational of `[q1, q2]` as any finite number -/
+theorem sqrt_nearest (a : Nat) (fa : FinB a) (hpos : 0 < bval a) :
+    FinB (Num.sqrt .f64 a) ∧
+    ∃ q1 q2 : ℚ, 0 < q1 ∧ q1 ≤ q2 ∧ q1 ^ 2 ≤ bval a ∧ bval a ≤ q2 ^ 2 ∧
+      ∀ x : ℚ, q1 ≤ x → x ≤ q2 → ∀ c, c < 18446744073709551616 → FinB c →
+        |x - bval (Num.sqrt .f64 a)| ≤ |x - bval c| := by
+  have hf := FloatSqrt.sqrt_finite a fa hpos
+  obtain ⟨q1, q2, h0, h12, h1, h2, r1, r2⟩ := FloatSqrt.sqrt_Rnd a fa hpos
+  refine ⟨hf, q1, q2, h0, h12, h1, h2, ?_⟩
+  intro x hx1 hx2 c hc fc
+  exact Rnd_nearest x _ (Rnd_between q1 q2 x _ h0 r1 r2 hx1 hx2) hf c hc fc
+
 -- non-vacuity: `2^53 + 1` is a tie between `2^53` (even mantissa, chosen) and `2^53 + 2`
 example : Rnd (9007199254740993 : ℚ) 0x4340000000000000 := by
   have := ofInt_Rnd 9007199254740993
